@@ -1,1 +1,95 @@
-(* placeholder, being written *)
+(* Props/Properties_C15.v — property C15: initialising a manager at any point (jobs in flight or
+   not, same or another variant) returns it to the empty state, and everything it does afterwards
+   is what a freshly allocated + initialised manager does.
+
+   Statements are about Mgr/Reset.v instantiated with Gen/GenReset.v + Gen/GenLayout.v (regenerated
+   from the CURRENT lib/x86_64/ooo_mgr_reset.c, lib/*/mb_mgr_*.c, alloc.c, cpu_feature.c and headers
+   on every run).  Proofs: Proofs/ResetProofs.v, Proofs/ResetImageTie.v. *)
+From Coq Require Import NArith ZArith List String Bool.
+From IMB Require Import Gen.GenConsts Gen.GenLayout Gen.GenReset Gen.GenResetImages Mgr.Ring Mgr.Reset
+                        Proofs.ResetProofs Proofs.ResetImageTie.
+Import ListNotations.
+Local Open Scope N_scope.
+
+(* FINITE, complete over the compiled variants: reset_ooo_mgrs() of every variant resets no manager
+   twice; every manager the variant's submit/flush code refers to is reset and is an entry of
+   ooo_mgr_table; every call passes the struct type allocated for that field, a lane count the
+   struct has room for, and starts with memset(p, 0, offsetof(T, road_block)) — so the image
+   below the road block after the call does not depend on the image before it. *)
+Theorem reset_covers_every_manager : forall v, In v variants ->
+  NoDup (reset_fields v) /\
+  (forall field, In field (v_used v) -> In field (reset_fields v) /\ In field table_fields) /\
+  (forall field fn lanes, In (field, fn, lanes) (v_resets v) ->
+     exists e r, table_entry field = Some e /\ find_reset_fn fn = Some r /\ rf_struct r = oe_struct e /\
+                 1 <= lanes <= lane_capacity (oe_struct e) /\
+                 (forall f g, agree_on (in_range 0 (oe_rb_off e)) (reset_image fn lanes f) (reset_image fn lanes g))).
+Proof. exact reset_covers_every_manager_thm. Qed.
+Print Assumptions reset_covers_every_manager.
+
+(* FINITE, complete over every (variant, manager the variant schedules on): the unused_lanes constant
+   stored for the lane count passed is the stack 0,1,..,lanes-1 (4-bit or 8-bit digits), followed by
+   nothing or by one all-ones terminator. *)
+Theorem unused_lanes_constant_is_valid_stack : forall v field fn lanes,
+  In v variants -> In (field, fn, lanes) (v_resets v) -> In field (v_used v) ->
+  exists c, unused_lanes_after fn lanes = Some c /\ (valid_stack 4 lanes c = true \/ valid_stack 8 lanes c = true).
+Proof. exact unused_lanes_constant_is_valid_stack_thm. Qed.
+Print Assumptions unused_lanes_constant_is_valid_stack.
+
+(* FOR ALL manager states s1 (any ring position, any slot contents, any OOO images = any jobs in
+   flight, any previously bound variant) and s2 (e.g. a freshly allocated block) with the same
+   flags, on a CPU that supports the architecture: init_mb_mgr_<arch>_internal(state, 1) selects
+   the same variant v for both, binds v's handlers, leaves the ring empty at slot 0 with error
+   code 0, and the scheduling states coincide. *)
+Theorem reinit_is_constant : forall cpu a s1 s2,
+  In a arch_inits ->
+  m_flags s1 = m_flags s2 ->
+  has_flags (m_features s1) (ai_req a) = true -> has_flags (m_features s2) (ai_req a) = true ->
+  has_flags (feature_adjust (m_flags s1) cpu) (ai_req a) = true ->
+  exists v, find_variant (variant_for cpu (m_flags s1) a) = Some v /\
+            sched_eq v (arch_init_run cpu a true s1) (arch_init_run cpu a true s2) /\
+            m_bound (arch_init_run cpu a true s1) = Some (v_name v) /\
+            earliest (m_ring (arch_init_run cpu a true s1)) = (-1)%Z /\
+            next (m_ring (arch_init_run cpu a true s1)) = 0%Z /\
+            errno (m_ring (arch_init_run cpu a true s1)) = 0%Z.
+Proof. exact reinit_is_constant_thm. Qed.
+Print Assumptions reinit_is_constant.
+
+(* Hence, for the public init (internal init + power-up self test through the same manager) and
+   any machine whose steps are a function of the scheduling state: every later history gives the
+   same outputs on the re-initialised manager as on a fresh one. *)
+Theorem no_residue :
+  forall (op out : Type) (selftest : mgr -> mgr) cpu a s fresh v,
+  In a arch_inits ->
+  m_flags s = m_flags fresh ->
+  has_flags (m_features s) (ai_req a) = true -> has_flags (m_features fresh) (ai_req a) = true ->
+  has_flags (feature_adjust (m_flags s) cpu) (ai_req a) = true ->
+  find_variant (variant_for cpu (m_flags s) a) = Some v ->
+  forall (step : mgr -> op -> mgr * out),
+  (forall s1 s2, sched_eq v s1 s2 -> sched_eq v (selftest s1) (selftest s2)) ->
+  (forall s1 s2 o, sched_eq v s1 s2 -> snd (step s1 o) = snd (step s2 o) /\ sched_eq v (fst (step s1 o)) (fst (step s2 o))) ->
+  forall ops, runm op out step (init_public selftest cpu a s) ops = runm op out step (init_public selftest cpu a fresh) ops.
+Proof. exact no_residue_thm. Qed.
+Print Assumptions no_residue.
+
+(* After re-initialisation the ring is an empty ring: queue size 0, and (earliest = -1, next = 0)
+   is a state [empty_at _ 0] from which every theorem of Props/Properties_C05.v holds — whatever the
+   256 slots still contain. *)
+Theorem reinit_ring_empty : forall cpu a s,
+  In a arch_inits ->
+  has_flags (m_features s) (ai_req a) = true ->
+  has_flags (feature_adjust (m_flags s) cpu) (ai_req a) = true ->
+  earliest (m_ring (arch_init_run cpu a true s)) = (-1)%Z /\ next (m_ring (arch_init_run cpu a true s)) = 0%Z /\
+  queue_sz SIZEOF_IMB_JOB IMB_MAX_JOBS (m_ring (arch_init_run cpu a true s)) = 0%Z.
+Proof. exact reinit_ring_empty_thm. Qed.
+Print Assumptions reinit_ring_empty.
+
+(* FINITE, complete over every (reset function, lane count) pair any compiled variant uses: the
+   model's image of ooo_mgr_<x>_reset(p, lanes) — which bytes are written and with what — equals,
+   byte for byte over the whole struct, the image produced by the compiled function of the current
+   lib/x86_64/ooo_mgr_reset.c (Gen/GenResetImages.v, written by harness/k15_reinit.c). *)
+Theorem reset_model_matches_compiled_code :
+  forall v field fn lanes, In v variants -> In (field, fn, lanes) (v_resets v) ->
+  exists size runs, In (fn, lanes, size, runs) compiled_reset_images /\
+                    model_image fn lanes size = expand_runs runs.
+Proof. exact reset_model_matches_compiled_code_thm. Qed.
+Print Assumptions reset_model_matches_compiled_code.
